@@ -8,7 +8,7 @@ from . import gen, oracles as O, simcheck
 
 
 class Kit:
-    def __init__(self, pid, oracle, streams=(("structured", 0.66), ("pairs", 0.11), ("crossing", 0.11), ("conveyor", 0.06), ("autoabs", 0.06)), n_quick=400, n_thorough=20000,
+    def __init__(self, pid, oracle, streams=(("structured", 0.66), ("pairs", 0.11), ("crossing", 0.11), ("conveyor", 0.06), ("autoabs", 0.06)), n_quick=1200, n_thorough=20000,
                  cone=None, rule="", feasible_frac=0.5, make_ops=None, facilities=None, fs_only=False,
                  post=None):
         self.pid, self.oracle, self.streams = pid, oracle, streams
